@@ -128,7 +128,7 @@ func c02TreeGen(tier Tier) TreeGen {
 		RootKinds: []string{"AND", "OR", "NOT", "LIST"},
 		Leaf:      func(t *rapid.T) Val { return genPrimVal(t, true, true) },
 		Conds:     true, CondExprStack: true, CondExprCond: true, InvalidConds: true,
-		Options: true, EmptyStacks: true, Caps: true, IndexOpts: true, FIFOOpt: true, DeepChains: true, Ambient: true, WideRuns: true, NoNestAfter: true, ReadOnlyNodes: true,
+		Options: true, EmptyStacks: true, Caps: true, IndexOpts: true, FIFOOpt: true, DeepChains: true, Ambient: true, Pasts: true, WideRuns: true, NoNestAfter: true, ReadOnlyNodes: true,
 	}
 	if tier.Thorough {
 		g.MaxDepth, g.MaxWidth, g.Budget = 6, 8, 60
